@@ -152,6 +152,7 @@ def run_config(rec, seed, k, i, tier):
     nk = sum(ps['ms'][kk] is not None for kk in ('sigx', 'sigy', 'sigz'))
     v = r.standard_normal((nk, 8, 8, 8)) if nk > 1 else \
         r.standard_normal((8, 8, 8))
+    base = {'seed': seed, 'k': k, 'i': i, 'problem': simgen.summarize(ps)}
     workers_all = [2, 3, 4, 7, 16] if tier == 'quick' else list(range(2, 17))
     cfgs = []
     # a handful of configurations per problem, all against one reference
@@ -163,12 +164,34 @@ def run_config(rec, seed, k, i, tier):
                                                 'straggler', 'equal'])})
     cfgs.append({'max_workers': 1, 'tqdm': False, 'file': True,
                  'schedule': 'equal'})
-    base = {'seed': seed, 'k': k, 'i': i, 'problem': simgen.summarize(ps)}
+
+    # Gridding: the model grid for all tasks, or an own computational grid
+    # per source-frequency pair with *different* sizes (so that any
+    # size-dependent scheduling / ordering of the tasks becomes visible).
+    gridding = gen.choice(r, ['same', 'dict', 'dict'])
+    base['gridding'] = gridding
+    gseed = int(r.integers(2**31))
+
+    def grids(sv, grid):
+        rr = gen.rng(gseed, 'grids')
+        b = float(grid.h[0].min())
+        out = {}
+        for s_ in sv.sources:
+            out[s_] = {}
+            for f_ in sv.frequencies:
+                n = int(gen.choice(rr, [6, 8, 10, 12]))
+                h = np.r_[3*b, 1.6*b, np.ones(n)*b*rr.uniform(0.75, 1.1)
+                          * 8.0/n, 1.6*b, 3*b]
+                out[s_][f_] = emg3d.TensorMesh(
+                    [h, h, h], origin=(-h.sum()/2, -h.sum()/2, -h.sum()/2))
+        return out
 
     def make(cfg, tmp):
         grid, model = simgen.build_model(ps)
         sv = simgen.build_survey(ps, data=obs.copy())
         kw = {'max_workers': cfg['max_workers']}
+        if gridding == 'dict':
+            kw.update(gridding='dict', gridding_opts=grids(sv, grid))
         if cfg['file']:
             kw['file_dir'] = tmp
         return simgen.simulation(sv, model, tol=1e-7, **kw), sv
@@ -246,8 +269,10 @@ def run_config(rec, seed, k, i, tier):
                                             for x in order_e)])
                 if differs or cfg['max_workers'] == 1:
                     rec.distinct((cfg['max_workers'], cfg['tqdm'],
-                                  cfg['file'], cfg['schedule'], phase))
+                                  cfg['file'], cfg['schedule'], phase,
+                                  gridding))
                 _ = order_s
+            rec.extra_set('gridding_seen', [gridding])
             rec.extra_set('pool_sizes_seen', [f"{cfg['max_workers']}:"
                                               f"{len(pids)}pids"])
             # ---- bit identity of every slot
